@@ -3,6 +3,7 @@ package checks
 import (
 	"encoding/json"
 	"fmt"
+	"os"
 	"runtime"
 	"strconv"
 	"strings"
@@ -62,6 +63,7 @@ func c03PreMsg(bs string, kind byte, seq int) []byte {
 		f = append(f, groupBody...)
 	case 'E':
 		f = append(f, groupEndBody...)
+	case 'B': // an application message without any body field
 	case 'X':
 		f = append(f, nestedEndBody...)
 	case 'Y':
@@ -132,6 +134,9 @@ func c03World(c c03Case) (*sessmc.World, []c03Sent, error) {
 			case 'E':
 				// through the API the body is ordered by tag, so 453 sorts last when the other tags are smaller
 				grab(w.Apply(&sessmc.Event{K: "send", Name: "sendE", Send: []fixscan.Field{{11, "ID"}, {55, "IBM"}, {54, "1"}, {40, "1"}}, SendGroupLast: true}))
+				grab(w.Apply(sessmc.EvFlush()))
+			case 'B':
+				grab(w.Apply(&sessmc.Event{K: "send", Name: "sendEmpty", SendEmpty: true}))
 				grab(w.Apply(sessmc.EvFlush()))
 			case 'A':
 				grab(w.Apply(&sessmc.Event{K: "send", Name: "sendAE", SendType: "AE", Send: []fixscan.Field{{571, "TR"}, {55, "X"}, {58, "a=b"}}}))
@@ -347,7 +352,7 @@ func runC03(c *core.Ctx) {
 	} else {
 		c.SetDeadline(5 * time.Minute)
 	}
-	c.SetRule(fmt.Sprintf("every outbound history of length <= %d over {plain application, application with nested groups, application with the group last, heartbeat} plus histories <= 2 that also use a two-character application type (AE) and News (body beginning with a group count) (after the Logon; produced through the live send path, or pre-stored with older SendingTime followed by the Logon), every subset of application messages refused on resend, every request [b,e] with 1<=b<=last+2 and e in {0,999999,1..last+2}, x BeginString x persistence x dictionaries x role; distinct = distinct (config,history,refusals,request)", N))
+	c.SetRule(fmt.Sprintf("every outbound history of length <= %d over {plain application, application with nested groups, application with the group last, heartbeat} plus histories <= 2 that also use a two-character application type (AE) and News (body beginning with a group count) (after the Logon; produced through the live send path, or pre-stored with older SendingTime followed by the Logon), every subset of application messages refused on resend, every request [b,e] with 1<=b<=last+2 and e in {0,999999,1..last+2}, x BeginString x persistence x dictionaries x role; an application message without any body field next to messages with a body; a stored history of 1005 messages on the memory, file and SQL store with requests around the thousandth; distinct = distinct (config,history,refusals,request)", N))
 	c.Assume("b=0 is outside the domain", "one session is reused for all requests against the same (config, history, refusals); every 7th request additionally on a fresh session",
 		"histories whose first 1 or 3 numbers were never used (counter moved forward without a reset): only requests that reach the stored messages are judged, the unused numbers must be gap-filled",
 		"body identity is judged on the region between the last leading header field and the first trailing trailer field (standard tag tables)")
@@ -380,6 +385,11 @@ func runC03(c *core.Ctx) {
 				hists = append(hists, h)
 			}
 		}
+	}
+	// an application message without a body next to one with a body, in either order (the replay parses every stored
+	// message into one reused Message object)
+	for _, h := range []string{"B", "PB", "BP", "GB", "BG", "HB", "PBP", "NB"} {
+		hists = append(hists, h)
 	}
 	// pre-stored only: a group whose last entry ends with a nested group, followed by 0, 1, 2 body fields
 	for _, a := range "XYZ" {
@@ -424,6 +434,7 @@ func runC03(c *core.Ctx) {
 		}
 	}
 	c.Set("history_groups", len(groups))
+	c03Long(c)
 	var idx int64 = -1
 	var evals int64
 	var wg sync.WaitGroup
@@ -487,5 +498,53 @@ func runC03(c *core.Ctx) {
 	c.DistinctN(evals)
 	if int(idx) < len(groups)-1 {
 		c.Cap("not all history groups evaluated")
+	}
+}
+
+
+// c03Long: a stored history of 1005 application messages (memory, file and SQL store) and requests whose range
+// spans, starts at, ends at and lies beyond the thousandth message (stores that read a long range in portions).
+func c03Long(c *core.Ctx) {
+	dir, cleanup := core.Scratch("c03long")
+	defer cleanup()
+	tp := ""
+	if tmpl, err := sqliteTemplateDB(); err == nil {
+		tp = dir + "/template.db"
+		if os.WriteFile(tp, tmpl, 0o644) != nil {
+			tp = ""
+		}
+	}
+	for _, store := range []string{"memory", "file", "sql"} {
+		cfg := sessmc.Config{BeginString: "FIX.4.2", OutCap: 2048}
+		switch store {
+		case "file":
+			cfg.FileDir = dir
+		case "sql":
+			if tp == "" {
+				continue
+			}
+			cfg.FileDir, cfg.SQLTemplate = dir, tp
+		}
+		base := c03Case{Cfg: cfg, Pre: true, Hist: strings.Repeat("P", 1005)}
+		w, hist, err := c03World(base)
+		if err != nil {
+			c.EngineError(err.Error())
+			continue
+		}
+		for _, r := range [][2]int{{1, 0}, {2, 1003}, {999, 1002}, {1000, 1000}, {1001, 1001}, {1, 1001}, {5, 1005}} {
+			cs := base
+			cs.B, cs.E = r[0], r[1]
+			rule, what := c03Check(cs, w, hist)
+			c.AddEval(1)
+			c.DistinctN(1)
+			if rule != "" {
+				if len(what) > 1500 {
+					what = what[:1500] + "..."
+				}
+				c.Violation(rule+" cfg="+cs.Cfg.String()+" long-history", what, "C03/case", cs)
+				break
+			}
+		}
+		w.Close()
 	}
 }
